@@ -1,6 +1,7 @@
 import Bpmn.Props.C12
 import Bpmn.Props.C01FragmentCurrent
 import Bpmn.Props.C12Nest
+import Bpmn.Props.C12Loop
 /-!
 # C12 — the sub-process node's contract in the engine model, for every program
 
@@ -224,6 +225,80 @@ theorem nestProc_run_current (d K : Nat) (hd : 0 < d) (hK : 0 < K) (vars : Vars)
 /-- the model's nest of depth 3 around 2 tasks really is the program one would draw (executable check of the constructor) -/
 example : ((Bpmn.Props.C12Nest.nestProc 3 2).nodes.map (·.id), (start Cfg.ideal (Bpmn.Props.C12Nest.nestProc 3 2) []).obs) =
     (["s", "C", "e", "U", "Ux", "Uxx", "S", "Sx", "Sxx", "E", "Ex", "Exx", "T", "Tx"], [.req "T"]) := by decide
+
+/-! ## the loop of `Props/C12Loop` at the current configuration -/
+
+theorem loop_noIncl (N : Int) : Bpmn.Props.C01Fragment.NoIncl (Bpmn.Props.C12Loop.loopProc N) := by
+  intro n hn
+  simp only [Bpmn.Props.C12Loop.loopProc, List.mem_cons, List.not_mem_nil, or_false] at hn
+  rcases hn with h | h | h | h | h | h | h | h <;> (subst h; decide)
+
+/-- the driver's answers of the loop as `runOps` operations: round `j`, `j + 1`, … -/
+def loopOps : Nat → List Int → List (String × Nat × Answer)
+  | _, [] => []
+  | j, v :: vs => ("B", j, .ok [("c", v)]) :: loopOps (j + 1) vs
+
+theorem roundsC_runOps (cfg : Cfg) (N : Int) (vars : Vars) : ∀ (vs : List Int) (j : Nat) (pre : List (String × Nat × Answer)),
+    Bpmn.Props.C12Loop.roundsC cfg N j (runOps cfg (Bpmn.Props.C12Loop.loopProc N) vars pre) vs =
+      ((List.range vs.length).map (fun n => (runOps cfg (Bpmn.Props.C12Loop.loopProc N) vars (pre ++ (loopOps j vs).take (n + 1))).obs),
+       runOps cfg (Bpmn.Props.C12Loop.loopProc N) vars (pre ++ loopOps j vs))
+  | [], j, pre => by simp [Bpmn.Props.C12Loop.roundsC, loopOps]
+  | v :: rest, j, pre => by
+    have hsn : runOps cfg (Bpmn.Props.C12Loop.loopProc N) vars (pre ++ [("B", j, .ok [("c", v)])]) =
+        answer cfg (Bpmn.Props.C12Loop.loopProc N) (runOps cfg (Bpmn.Props.C12Loop.loopProc N) vars pre) "B" j (.ok [("c", v)]) := by
+      simp [runOps, List.foldl_append]
+    have ih := roundsC_runOps cfg N vars rest (j + 1) (pre ++ [("B", j, .ok [("c", v)])])
+    rw [hsn] at ih
+    simp only [Bpmn.Props.C12Loop.roundsC, ih, List.length_cons, List.range_succ_eq_map, List.map_cons, List.map_map]
+    have e0 : pre ++ List.take (0 + 1) (loopOps j (v :: rest)) = pre ++ [("B", j, .ok [("c", v)])] := by simp [loopOps]
+    rw [e0, hsn]
+    refine Prod.ext ?_ ?_
+    · simp only [List.cons.injEq, true_and]
+      apply List.map_congr_left
+      intro n _
+      simp [loopOps, List.append_assoc]
+    · simp [loopOps, List.append_assoc]
+
+/-- **A sub-process entered again and again, for today's engine model.** At the configuration extracted from /repo on this
+run the loop of `Props/C12Loop` runs as the token game does: `k` rounds with values below the bound `N`, then one at or above
+it — the inner task is requested once per activation of the sub-process, `k + 1` times in all, and the instance completes. -/
+theorem loop_run_current (N : Int) (vars : Vars) (vs : List Int) (last : Int) (hvs : ∀ v ∈ vs, v < N) (hlast : ¬ last < N) :
+    (start Bpmn.Props.EngineCurrent.faithful (Bpmn.Props.C12Loop.loopProc N) vars).obs = [.req "B"] ∧
+    (Bpmn.Props.C12Loop.roundsC Bpmn.Props.EngineCurrent.faithful N 1
+      (start Bpmn.Props.EngineCurrent.faithful (Bpmn.Props.C12Loop.loopProc N) vars) vs).1 =
+        vs.map (fun _ => [Obs.complete "ue", Obs.req "B"]) ∧
+    (runOps Bpmn.Props.EngineCurrent.faithful (Bpmn.Props.C12Loop.loopProc N) vars (loopOps 1 (vs ++ [last]))).obs =
+      [.complete "ue", .complete "e"] ∧
+    (runOps Bpmn.Props.EngineCurrent.faithful (Bpmn.Props.C12Loop.loopProc N) vars (loopOps 1 (vs ++ [last]))).topLive
+      (Bpmn.Props.C12Loop.loopProc N) = false := by
+  have hp := loop_noIncl N
+  have h0 : ∀ cfg, start cfg (Bpmn.Props.C12Loop.loopProc N) vars = runOps cfg (Bpmn.Props.C12Loop.loopProc N) vars [] := fun _ => rfl
+  obtain ⟨o0, o1, o2, t2, _⟩ := Bpmn.Props.C12Loop.loop_run N vars vs last hvs hlast
+  have hops : ∀ (vs : List Int) (j : Nat), loopOps j (vs ++ [last]) = loopOps j vs ++ [("B", j + vs.length, .ok [("c", last)])] := by
+    intro vs
+    induction vs with
+    | nil => intro j; simp [loopOps]
+    | cons v vs ih => intro j; simp [loopOps, ih (j + 1)]; omega
+  have hfin : runOps Cfg.ideal (Bpmn.Props.C12Loop.loopProc N) vars (loopOps 1 (vs ++ [last])) =
+      answer Cfg.ideal (Bpmn.Props.C12Loop.loopProc N)
+        (Bpmn.Props.C12Loop.rounds N 1 (start Cfg.ideal (Bpmn.Props.C12Loop.loopProc N) vars) vs).2 "B" (1 + vs.length) (.ok [("c", last)]) := by
+    rw [hops, h0 Cfg.ideal]
+    have := roundsC_runOps Cfg.ideal N vars vs 1 []
+    simp only [List.nil_append] at this
+    show _ = answer Cfg.ideal _ (Bpmn.Props.C12Loop.roundsC Cfg.ideal N 1 _ vs).2 _ _ _
+    rw [this]
+    simp [runOps, List.foldl_append]
+  refine ⟨?_, ?_, ?_, ?_⟩
+  · rw [h0, sub_programs_are_token_game _ hp]; exact o0
+  · rw [h0, roundsC_runOps]
+    simp only [sub_programs_are_token_game _ hp]
+    have := roundsC_runOps Cfg.ideal N vars vs 1 []
+    rw [← h0 Cfg.ideal] at this
+    have e := congrArg Prod.fst this
+    simp only at e
+    rw [← e]; exact o1
+  · rw [sub_programs_are_token_game _ hp, hfin]; exact o2
+  · rw [sub_programs_are_token_game _ hp, hfin]; exact t2
 
 /-- non-vacuity: the nested, looped sub-process program of Props/C01Fragment has sub-processes and no inclusive gateway -/
 example : Bpmn.Props.C01Fragment.NoIncl Bpmn.Props.C01Fragment.demoSub ∧
